@@ -34,8 +34,9 @@ Range(f) == {f[x] : x \in DOMAIN f}
 SeqToSet(s) == {s[k] : k \in DOMAIN s}
 NoDup(s) == \A a, b \in DOMAIN s : a # b => s[a] # s[b]
 
-RECURSIVE SortedSeq(_)
-SortedSeq(S) == IF S = {} THEN <<>> ELSE LET m == Min(S) IN <<m>> \o SortedSeq(S \ {m})
+\* ascending sequence of a set of integers (SequencesExt: evaluated natively by TLC)
+SeqX == INSTANCE SequencesExt
+SortedSeq(S) == SeqX!SetToSortSeq(S, LAMBDA a, b : a < b)
 
 -----------------------------------------------------------------------------
 (* Walking a tree.  `fuel` bounds the depth so that the walk is total even  *)
